@@ -90,6 +90,11 @@ def enum_queries(seed):
         run(f"a*/{g}", lambda p, g=g: G(p.category, "a*") and G(p.package, g))
         run(f"*:{g}", lambda p, g=g: G(p.slot, g))
         run(f"*:*/{g}", lambda p, g=g: G(p.subslot, g))
+        # a glob in one of the two positions only: literal (or empty) slot with a globbed sub-slot and the other way round
+        run(f"*:ab/{g}", lambda p, g=g: p.slot == "ab" and G(p.subslot, g))
+        run(f"*:0/{g}", lambda p, g=g: p.slot == "0" and G(p.subslot, g))
+        run(f"*:/{g}", lambda p, g=g: G(p.subslot, g))
+        run(f"*:{g}/a.b", lambda p, g=g: G(p.slot, g) and p.subslot == "a.b")
         run(f"*/{g}::other", lambda p, g=g: G(p.package, g) and p.repo.repo_id == "other")
     # version operators on globbed targets, plain atoms, short names
     for op, cmpf in ((">=", lambda c: c >= 0), ("<", lambda c: c < 0), ("=", lambda c: c == 0)):
@@ -112,7 +117,7 @@ def enum_queries(seed):
             pass
         except Exception as e:
             note({"query": s}, f"parse_match({s!r}) raised {type(e).__name__} instead of ParseError")
-    return {"name": "C44.queries.bounded_enumeration", "bound": f"{len(globs)} globs of <= 4 symbols over {SYM} in 7 positions / combinations, 27 version-operator queries, 10 plain atom / name strings, 4 blocker strings, against {len(pkgs)} packages; {stat['ok']} queries parsed and compared, {stat['rejected']} rejected by parse_match itself",
+    return {"name": "C44.queries.bounded_enumeration", "bound": f"{len(globs)} globs of <= 4 symbols over {SYM} in 11 positions / combinations (incl. a glob in only one of slot / sub-slot), 27 version-operator queries, 10 plain atom / name strings, 4 blocker strings, against {len(pkgs)} packages; {stat['ok']} queries parsed and compared, {stat['rejected']} rejected by parse_match itself",
             "cases": cases, "failures": fails}
 
 
